@@ -13,7 +13,7 @@ CASE_TYPE = 'C06.case'
 EXTRA_IMPORTS = 'From PJ Require Import Model.Msg.\n'
 RULE = ('parse cases: the full product of per-member alphabets for request (8x13x9x10), response (8x16x8x14) and error '
         '(14x8x9) objects, non-object inputs of every JSON type, batches of <=3 elements over 6 element documents, '
-        'batch-level error objects; history cases: every id sequence of length <=4 over {null,1,2,"1"} under every '
+        'batch-level error objects; history cases: every id sequence of length <=4 over {null,1,2,"1","100%"} and (sampled) over {null,0,"","0",1} under every '
         'grouping into append/extend operations (the argument of extend a list, a tuple, a generator or an iterator), for BatchRequest and BatchResponse. distinct = distinct (kind, input); '
         'non-trivial = the input is an object or array (reaches the member checks) / the history has >=2 operations')
 EXHAUSTIVE = {'quick': False, 'thorough': True}
@@ -97,7 +97,10 @@ def compositions(n):
             yield [k] + rest
 
 
-def hist_cases():
+IDS_FALSY = [None, 0, '', '0', 1]        # the valid ids 0 and "" are falsy
+
+
+def hist_cases(IDS=IDS):
     out = []
     for n in range(1, 5):
         for ids in itertools.product(range(len(IDS)), repeat=n):
@@ -119,7 +122,10 @@ def generate(seed, tier):
     rnd = random.Random(seed)
     pc = parse_cases()
     hc = hist_cases()
+    hf = hist_cases(IDS_FALSY)
     if tier == 'quick':
+        rnd.shuffle(hf)
+        hf = hf[:500]
         rnd.shuffle(pc)
         # stratified sample: keep every error/batch/scalar case, sample the two big products
         big = [c for c in pc if c[0] in ('req', 'resp') and isinstance(c[2], dict)]
@@ -128,7 +134,7 @@ def generate(seed, tier):
         rnd.shuffle(hc)
         hc = hc[:700]
     cases = [{'t': 'parse', 'kind': k, 'base': b, 'doc': d} for k, b, d in pc]
-    for ops in hc:
+    for ops in hc + hf:
         for resp in (False, True):
             # how the argument of extend is handed over: the parameter is typed Iterable
             cases.append({'t': 'hist', 'resp': resp, 'ops': ops, 'ext_as': ('list', 'tuple', 'gen', 'iter')[len(cases) % 4]})
